@@ -42,7 +42,9 @@ def byNameRequest (toks : List String) : String :=
     | some hist, some yy, some mm, some dd =>
       let cfg := run hist
       let tj := match toJdByName cfg (yy, mm, dd) a with | .ok v => toString v | .err => "err" | .panic => "panic"
-      s!"{showRes (convert cfg (yy, mm, dd) a b)} {tj}"
+      let ab := convert cfg (yy, mm, dd) a b
+      let back := match ab with | .ok x => convert cfg (narrowT x) b a | r => r
+      s!"{showRes ab} {tj} {showRes back}"
     | _, _, _, _ => "bad-request"
   | ["names"] => ",".intercalate (Gen.calMetas.map (fun m => m.name))
   | ["meta"] =>
